@@ -1,6 +1,6 @@
 (** C13 theorems: every quoting style of escape.rs, read back by the reader of Reader.v, gives
     the original string. *)
-From BV Require Import Base.Prelude gen.EscapeTables Quote.Quote Quote.Reader.
+From BV Require Import Base.Prelude gen.C13EscapeTables Quote.Quote Quote.Reader.
 Open Scope N_scope.
 
 (** * Small facts *)
